@@ -203,6 +203,71 @@ func compactOff(k int) int {
 	return 474 + (k-1)*478
 }
 
+// refCompactShares: the specified compact share sequence of a list of transactions, written from the share
+// specification independently of the library: the length-prefixed transactions concatenated, cut into 474
+// bytes for the first share and 478 for every other; every share = namespace | info byte (version 0, start
+// flag on the first share only) | big-endian sequence length (first share only) | 4 reserved bytes holding the
+// in-share offset of the first unit that STARTS in the share (0 if none) | payload | zero fill
+func refCompactShares(ns []byte, txs [][]byte) [][]byte {
+	var stream []byte
+	var unitStarts []int
+	for _, t := range txs {
+		unitStarts = append(unitStarts, len(stream))
+		var pre [10]byte
+		n := 0
+		for v := uint64(len(t)); ; {
+			if v < 0x80 {
+				pre[n] = byte(v)
+				n++
+				break
+			}
+			pre[n] = byte(v) | 0x80
+			n++
+			v >>= 7
+		}
+		stream = append(stream, pre[:n]...)
+		stream = append(stream, t...)
+	}
+	T := len(stream)
+	if T == 0 {
+		return nil
+	}
+	var out [][]byte
+	ui := 0
+	for k, off := 0, 0; off < T; k++ {
+		capac, hdr := 478, 34
+		if k == 0 {
+			capac, hdr = 474, 38
+		}
+		end := off + capac
+		if end > T {
+			end = T
+		}
+		sh := make([]byte, 0, 512)
+		sh = append(sh, ns...)
+		if k == 0 {
+			sh = append(sh, 0x01, byte(T>>24), byte(T>>16), byte(T>>8), byte(T))
+		} else {
+			sh = append(sh, 0x00)
+		}
+		for ui < len(unitStarts) && unitStarts[ui] < off {
+			ui++
+		}
+		res := 0
+		if ui < len(unitStarts) && unitStarts[ui] < end {
+			res = hdr + unitStarts[ui] - off
+		}
+		sh = append(sh, byte(res>>24), byte(res>>16), byte(res>>8), byte(res))
+		sh = append(sh, stream[off:end]...)
+		for len(sh) < 512 {
+			sh = append(sh, 0)
+		}
+		out = append(out, sh)
+		off = end
+	}
+	return out
+}
+
 func (c *Ctx) compactCase(ns share.Namespace, txs [][]byte, allRanges bool) {
 	defer c.recoverCase()
 	c.newCase()
@@ -246,6 +311,15 @@ func (c *Ctx) compactCase(ns share.Namespace, txs [][]byte, allRanges bool) {
 		seqLen = shares[0].SequenceLen()
 	}
 	c.emit("css export", fmt.Sprintf("ok %s seqlen=%d", digList(raw), seqLen))
+	// the same specification written in Go (also available where the model is not consulted)
+	c.oracle()
+	if ref := refCompactShares(ns.Bytes(), txs); digList(ref) != digList(raw) {
+		first := 0
+		for first < len(ref) && first < len(raw) && bytes.Equal(ref[first], raw[first]) {
+			first++
+		}
+		c.violate("C10", "", fmt.Sprintf("the %d exported compact shares are not the specified encoding of the %d transactions written (%d shares specified; first difference in share %d)", len(raw), len(txs), len(ref), first), "", c.caseOps)
+	}
 	// independent spec of the format (C10): the driver answers with Spec.compactSeq
 	c.emit(fmt.Sprintf("spec compact %s %s", hx(ns.Bytes()), hxList(txs)), "ok "+digList(raw))
 	c.emit("css export", fmt.Sprintf("ok %s seqlen=%d", digList(raw), seqLen)) // restores register R
@@ -423,6 +497,14 @@ func eqTxs(a, b [][]byte) bool {
 
 func streamCompact(c *Ctx) {
 	nss := []share.Namespace{share.TxNamespace, share.PayForBlobNamespace}
+	// transactions around the 3- and 4-byte length prefix boundaries (2^14, 2^21) and 2^17, 2^20: Go-side
+	// reference for all, the model as well up to 2^17 (quick) / all (thorough)
+	for i, L := range []int{16383, 16384, 131071, 131072, 131073, 1 << 20, 2097151, 2097152} {
+		c.goOnly = !c.thorough && L > 131073
+		c.compactCase(nss[i%2], [][]byte{c.rng.Bytes(10), c.rng.Bytes(L), c.rng.Bytes(20)}, false)
+		c.goOnly = false
+		c.dist("huge-tx")
+	}
 	// every single-tx length 1..3000 (round trip only)
 	maxSingle := 3000
 	for n := 1; n <= maxSingle; n++ {
@@ -675,6 +757,10 @@ func streamCHist(c *Ctx) {
 		if err == nil {
 			// C10 after any history: the exported shares are byte-identical to the specified encoding of
 			// the writes (the driver answers with the independent Spec.compactSeq)
+			c.oracle()
+			if ref := refCompactShares(ns.Bytes(), writes); digList(ref) != digList(sharesToBytes(sh)) {
+				c.violate("C10", "", fmt.Sprintf("after the splitter history [%s] the %d exported shares are not the specified encoding of the %d writes", strings.TrimSpace(desc), len(sh), len(writes)), "", c.caseOps)
+			}
 			c.emit(fmt.Sprintf("spec compact %s %s", hx(ns.Bytes()), hxList(writes)), "ok "+digList(sharesToBytes(sh)))
 			c.emit("css export", fmt.Sprintf("ok %s seqlen=%d", digList(sharesToBytes(sh)), sl)) // restores register R
 		}
